@@ -206,6 +206,13 @@ class Check:
                 solve._pool.shutdown(wait=False, cancel_futures=True)
                 solve._pool = None
 
+    def _replay_for(self, name):
+        best = None
+        for pref, fn in self.vc_replay.items():
+            if name.startswith(pref) and (best is None or len(pref) > len(best[0])):
+                best = (pref, fn)
+        return best[1] if best else None
+
     def _finish(self):
         dbg("discharging", len(self.vcs), "VCs")
         solve.discharge(self.vcs, self.budget_ms)
@@ -240,10 +247,7 @@ class Check:
                 if v.name in seen_fail:
                     continue
                 seen_fail.add(v.name)
-                replay = None
-                for pref, fn in self.vc_replay.items():
-                    if v.name.startswith(pref):
-                        replay = fn
+                replay = self._replay_for(v.name)
                 reproduced, witness, cls = None, v.model, None
                 if replay is not None:
                     try:
@@ -264,10 +268,7 @@ class Check:
                 # search turns it into a concrete failing input on the real code
                 if v.name in seen_fail:
                     continue
-                replay = None
-                for pref, fn in self.vc_replay.items():
-                    if v.name.startswith(pref):
-                        replay = fn
+                replay = self._replay_for(v.name)
                 found = False
                 if replay is not None and v.name not in searched:
                     searched.add(v.name)
